@@ -172,6 +172,14 @@ def check_lattice(ctx, rng, name, fam, l, reqs, meta):
             rep("cut_boundaries did not remove exactly the edges crossing the selected boundaries"); continue
         if generic:
             compare_plaquettes(ctx, name, "cut_boundaries", l, c, {e: i for i, e in enumerate(keep)}, rep, no_new=True)
+        # the same selection written with the integers 0 / 1, as a tuple, as a numpy array of ints and of bools
+        for lab, flags in (("[1, 0] integers", [int(bx), int(by)]), ("tuple of bools", (bx, by)), ("numpy ints", np.array([int(bx), int(by)])), ("numpy bools", np.array([bx, by]))):
+            try:
+                cf = cut_boundaries(l, flags)
+                if not (np.array_equal(cf.edges.indices.reshape(-1, 2), c.edges.indices.reshape(-1, 2)) and np.array_equal(cf.edges.crossing.reshape(-1, 2), c.edges.crossing.reshape(-1, 2))):
+                    rep(f"cut_boundaries with the selection given as {lab} {list(map(int, flags))} differs from the selection given as a list of bools", flags=lab); break
+            except Exception as ex:
+                rep(f"cut_boundaries raised {type(ex).__name__}: {ex} for the selection given as {lab}", flags=lab); break
         c2 = cut_boundaries(c, [bx, by])
         if not (np.array_equal(c2.edges.indices, c.edges.indices) and np.array_equal(c2.edges.crossing, c.edges.crossing)):
             rep("cutting the same boundaries twice changes the lattice")
